@@ -145,4 +145,29 @@ def cases():
                                "builders": [{"name": "b0", "parent": "soc", "env": {"CFLAGS": ["${ROOTVAR}"]}}, {"name": "b1", "parent": "family"}],
                                "apps": [{"name": "app", "sources": ["main.c"]}]}]}
     out.append((f, {}))
+    # 24: a module whose sources are ALL optional; a conditional SELECT (map form under selects:) selects, it does not import
+    mods = [{"name": "netif", "sources": ["netif.c"]}, {"name": "usb", "sources": ["usb.c"]},
+            {"name": "glue", "sources": [{"netif": ["glue_netif.c"], "usb": ["glue_usb.c"]}]}]
+    out.append((base(mods, [{"name": "app", "sources": ["main.c"], "selects": ["glue", "netif"]}]), {}))
+    for cond_dep in ("?D", "D"):
+        mods = [{"name": "D", "sources": ["D.c"], "env": {"export": {"X": "from-D", "CFLAGS": ["-DD"]}}},
+                {"name": "Xc", "sources": ["Xc.c"]},
+                {"name": "M", "sources": ["M.c"], "selects": [{"Xc": [cond_dep]}]}]
+        out.append((base(mods, [{"name": "app", "sources": ["main.c"], "selects": ["M", "Xc"]}]), {}))
+    # 25: a downloaded module with optional sources that only some apps activate (one phony statement per source)
+    mods = [{"name": "spi", "sources": ["spi.c"]},
+            {"name": "vendorlib", "download": git, "sources": ["core.c", "util.c", {"spi": ["drv_spi.c"]}]}]
+    apps = [{"name": "blinky", "sources": ["blinky.c"], "depends": ["vendorlib"]}, {"name": "sensor", "sources": ["sensor.c"], "depends": ["vendorlib", "spi"]}]
+    out.append((dlbase(mods, apps), {}))
+    # 26: download directories where one name is a string prefix of the other (nrfx / nrfx_hal): containment is by path component
+    mods = [{"name": "nrfx", "download": git, "sources": ["nrfx.c"]}, {"name": "nrfx_hal", "download": git, "sources": ["hal.c"]},
+            {"name": "hal_uart", "srcdir": "${build-dir}/dl/./nrfx_hal/drivers", "sources": ["uart.c"], "depends": ["nrfx_hal"]}]
+    apps = [{"name": "logger", "sources": ["logger.c"], "depends": ["hal_uart"]},
+            {"name": "radio", "sources": ["radio.c"], "depends": ["nrfx", "hal_uart"]},
+            {"name": "radio2", "sources": ["radio2.c"], "depends": ["nrfx", "nrfx_hal", "hal_uart"]}]
+    out.append((dlbase(mods, apps), {}))
+    # 27: a builder's context overrides the compile rule only to add always: true; the other builder uses the plain rule
+    cca = dict(RULES[0], always=True)
+    out.append((base([{"name": "lib", "sources": ["lib.c"]}], [{"name": "a1", "sources": ["main.c"], "selects": ["lib"]}, {"name": "a2", "sources": ["m2.c"], "selects": ["lib"]}],
+                     contexts=[{"name": "c0", "rules": [cca]}], builders=[{"name": "b0", "parent": "c0"}, {"name": "b1"}]), {}))
     return out
